@@ -140,7 +140,11 @@ func (g *gen) writeExprOther(b *buffer, n *a.Expr, sideEffectsOnly bool, depth u
 			b.writes(".ptr")
 		}
 		b.writeb('[')
+		g.verifIndexPre(b, n)
 		if err := g.writeExpr(b, n.RHS().AsExpr(), false, depth); err != nil {
+			return err
+		}
+		if err := g.verifIndexPost(b, n, depth); err != nil {
 			return err
 		}
 		b.writeb(']')
@@ -150,6 +154,9 @@ func (g *gen) writeExprOther(b *buffer, n *a.Expr, sideEffectsOnly bool, depth u
 		// n is a slice.
 		//
 		// TODO: don't assume that the slice is a slice of base.u8.
+		if done, err := g.verifSlice(b, n, depth); done {
+			return err
+		}
 		lhs := n.LHS().AsExpr()
 		mhs := n.MHS().AsExpr()
 		rhs := n.RHS().AsExpr()
@@ -286,6 +293,9 @@ func (g *gen) writeExprUnaryOp(b *buffer, n *a.Expr, depth uint32) error {
 }
 
 func (g *gen) writeExprBinaryOp(b *buffer, n *a.Expr, depth uint32) error {
+	if done, err := g.verifBinaryOp(b, n, depth); done {
+		return err
+	}
 	opName, lhsCast, overallCast := "", false, n.MType().IsSmallInteger()
 
 	op := n.Operator()
@@ -467,6 +477,9 @@ func (g *gen) writeExprAs(b *buffer, lhs *a.Expr, rhs *a.TypeExpr, depth uint32)
 }
 
 func (g *gen) writeExprAssociativeOp(b *buffer, n *a.Expr, depth uint32) error {
+	if done, err := g.verifAssociativeOp(b, n, depth); done {
+		return err
+	}
 	op := n.Operator()
 	opName := cOpName(op)
 	if opName == "" {
